@@ -173,6 +173,7 @@ void vf_os_dump(int fd_unused) {
 /* ---------------- call log + fault plan -------------------------------------------------- */
 
 static bool plan_fails(int kind, long idx) {
+  if (vf_os.never_fail_kinds & (1u << kind)) return false;
   for (int i = 0; i < VF_MAX_FAILS; i++) if (vf_os.fail_at[i] == idx) return true;
   if (vf_os.fail_from >= 0 && idx >= vf_os.fail_from && (vf_os.fail_kinds & (1u << kind))) return true;
   return false;
